@@ -160,7 +160,7 @@ Proof.
     apply NoDup_map_pair. apply NoDup_map_filter. exact Hnds. }
   split; [|exact Hnd2].
   (* the answer list: declaration first, then the matching traversal occurrences *)
-  unfold references_at in Hrl. rewrite Hv in Hrl. cbv zeta in Hrl. injection Hrl as Hrl.
+  unfold references_at, references_of_target in Hrl. rewrite Hv in Hrl. cbv zeta in Hrl. injection Hrl as Hrl.
   set (tl := map (fun o0 : occ => (f, o_loc o0))
                  (filter (fun o0 => occ_matches_local (s_name o) (v_loc v) o0 && negb (inside (v_loc v) (o_loc o0)))
                          (fi_occs (analyse P)))) in Hrl.
